@@ -1914,8 +1914,9 @@ fn main() {
         sizes.push(format!("s{n}"));
         sizes.push(format!("p- s{n}"));
     }
-    sizes.push("s100000".to_string());
     if thorough {
+        // (quick: the four sizes around 2^16 nodes are the boundary; the far-above size costs ~12 s of the run)
+        sizes.push("s100000".to_string());
         sizes.push("s500000".to_string());
         sizes.push("p- s65536".to_string());
     }
